@@ -42,6 +42,17 @@ func genCsvImport(r *Rng) *Enc {
 	var sb strings.Builder
 	ncols := r.Range(1, 4)
 	nrows := r.Intn(6)
+	big := false
+	if r.Intn(60) == 0 {
+		nrows = Pick(r, []int{65, 66, 100, 130, 257}) // more records than a small pre-sized block would hold
+		big = true
+	} else if r.Intn(400) == 0 {
+		nrows = Pick(r, []int{4097, 4099, 6002})
+		big = true
+	}
+	if big && ncols < 2 {
+		ncols = 2
+	}
 	hdrNames := []string{"a", "b", "c", "d", "a b", "x,y", "q\"q", "", " s", "#h", "s ", "a "}
 	perm := r.Perm(len(hdrNames))
 	for j := 0; j < ncols; j++ {
@@ -61,7 +72,7 @@ func genCsvImport(r *Rng) *Enc {
 	sb.WriteString(Pick(r, []string{"\n", "\n", "\r\n"}))
 	for i := 0; i < nrows; i++ {
 		nf := ncols
-		if r.Chance(6) {
+		if r.Chance(6) && !big {
 			nf = r.Range(0, ncols+1) // ragged
 		}
 		for j := 0; j < nf; j++ {
@@ -76,12 +87,16 @@ func genCsvImport(r *Rng) *Enc {
 			}
 		}
 		if i < nrows-1 || r.Chance(70) {
-			sb.WriteString(Pick(r, []string{"\n", "\n", "\n", "\r\n", "\n\n", "\r"}))
+			if big {
+				sb.WriteString(Pick(r, []string{"\n", "\n", "\r\n"})) // a long table is well-formed most of the time
+			} else {
+				sb.WriteString(Pick(r, []string{"\n", "\n", "\n", "\r\n", "\n\n", "\r"}))
+			}
 		}
 	}
 	data := []byte(sb.String())
 	// byte-level mutations of well-formed input: flip, insert, delete, truncate
-	if r.Chance(35) && len(data) > 0 {
+	if r.Chance(35) && len(data) > 0 && !(big && r.Chance(90)) {
 		for k := r.Range(1, 3); k > 0 && len(data) > 0; k-- {
 			pos := r.Intn(len(data))
 			special := []byte{'"', ',', '\n', '\r', ' ', 'a', '1'}
@@ -179,6 +194,9 @@ func genCsvRoundTrip(r *Rng) *Enc {
 		ncols = 0
 	}
 	n := r.Intn(6)
+	if r.Intn(60) == 0 {
+		n = Pick(r, []int{65, 100, 130})
+	}
 	names := []string{"a", "b", "c", "a b", "x,y", "q\"q", "l\nf", " s", "é", "", "1", "cr\r", "#h", "!", "#"}
 	perm := r.Perm(len(names))
 	df := dataframe.NewDataFrame()
@@ -189,6 +207,26 @@ func genCsvRoundTrip(r *Rng) *Enc {
 			d[i] = csvCellFor(r, inDomain || r.Chance(70))
 		}
 		df.Columns[names[perm[j]]] = &dataframe.Column[any]{Name: names[perm[j]], Data: d}
+	}
+	if ncols == 1 && r.Chance(15) {
+		// a single column whose name contains a tab (or looks like another delimiter-separated header)
+		for k, c := range df.Columns {
+			delete(df.Columns, k)
+			nm := Pick(r, []string{"a\tb", "x;y", "p|q", "\t"})
+			c.Name = nm
+			df.Columns[nm] = c
+		}
+	}
+	if ncols > 0 && r.Chance(15) {
+		// the frame has a history: it was exported once, then a column was renamed (anything remembered from the
+		// first export must not leak into the recorded one)
+		guard(func() error {
+			var sink bytes.Buffer
+			df.ToCSVWriter(&sink)
+			ks := df.ColumnNames()
+			old := Pick(r, ks)
+			return df.RenameColumn(old, old+"_r")
+		})
 	}
 	e.Tok("RT")
 	e.Frame(df)
